@@ -17,6 +17,7 @@ import (
 func init() { commands["k8"] = k8 }
 
 type k8Result struct {
+	C13 []k8Case `json:"c13"`
 	C15 []k8Case `json:"c15"`
 	C16 []k8Case `json:"c16"`
 }
@@ -230,6 +231,40 @@ func k8(args []string) {
 			res.C16 = append(res.C16, k8Case{"second-run-byte-identical", same, tail(out2, 200)})
 		}
 	}
+	// ---------------- C13: compiler directives of bystander declarations ----------------
+	// a //go:embed variable and a //go:noinline function next to generators: the generated package must
+	// still embed the file.  Variant "lit" also holds a generator FUNCTION LITERAL (finding D15 on the
+	// pinned tree: all doc comments, directives included, are dropped from such a file).
+	for _, variant := range []string{"decl", "lit"} {
+		name := "directives-kept-" + variant
+		src := filepath.Join(mod, "c13", variant, "src", "e")
+		dst := filepath.Join(mod, "c13", variant, "out", "e")
+		code := "package e\n\nimport (\n\t_ \"embed\"\n\n\t. \"github.com/goghcrow/go-co\"\n)\n\n" +
+			"func G1() Iter[int] {\n\tYield(1)\n}\n\n"
+		if variant == "lit" {
+			code += "// Lit is a generator literal\nvar Lit = func() Iter[int] {\n\tYield(2)\n}\n\n"
+		}
+		code += "// Data is filled in by the compiler\n//\n//go:embed data.txt\nvar Data string\n\n//go:noinline\nfunc Plain() int { return len(Data) }\n"
+		mustWrite(filepath.Join(src, "e.go"), code)
+		mustWrite(filepath.Join(src, "data.txt"), "hello")
+		out, err := compile(src, dst)
+		if err != nil {
+			res.C13 = append(res.C13, k8Case{name, false, "compile failed: " + tail(out, 400)})
+			continue
+		}
+		mustWrite(filepath.Join(dst, "data.txt"), "hello") // Compile copies go files only
+		mainDir := filepath.Join(mod, "c13", variant, "cmd")
+		mustWrite(filepath.Join(mainDir, "main.go"), "package main\n\nimport (\n\t\"fmt\"\n\te \"scratch/c13/"+variant+"/out/e\"\n)\n\nfunc main() { fmt.Println(\"len\", e.Plain()) }\n")
+		c := exec.Command("go", "run", "./c13/"+variant+"/cmd")
+		c.Dir = mod
+		o, err := c.CombinedOutput()
+		got := strings.TrimSpace(string(o))
+		gen, _ := os.ReadFile(filepath.Join(dst, "e.go"))
+		ok := err == nil && got == "len 5" && strings.Contains(string(gen), "//go:embed data.txt") && strings.Contains(string(gen), "//go:noinline")
+		res.C13 = append(res.C13, k8Case{name, ok, "source: len 5 with //go:embed and //go:noinline; generated: " + tail(got, 200) +
+			fmt.Sprintf(" (embed directive kept: %v, noinline kept: %v)", strings.Contains(string(gen), "//go:embed data.txt"), strings.Contains(string(gen), "//go:noinline"))})
+	}
+
 	bts, _ := json.MarshalIndent(res, "", " ")
 	os.WriteFile(filepath.Join(*dir, "k8.json"), bts, 0o644)
 	os.RemoveAll(mod)
